@@ -957,14 +957,12 @@ impl Run {
         let local_nodes: Vec<String> = self.w.im.local.iter().map(|n| n.0.clone()).collect();
         if let Some((addr, args)) = ds.first() {
             let a0: Option<Vec<u8>> = args.first().and_then(|a: &Arg| a.as_ref()).map(|b| upper(b));
-            if a0.as_deref() == Some(b"UMFORWARD") {
-                let t = args.get(1).and_then(|a| a.as_ref()).map(|b| latin1(b)).unwrap_or_default();
-                return format!("forward {} {} {}", slot, addr, t);
+            // a command handed to a peer proxy (active redirection), wrapped in UMFORWARD or not: the
+            // redirection budget is not an observable of this property (C09 / C02), only the target is
+            if a0.as_deref() == Some(b"UMFORWARD") || !local_nodes.contains(addr) {
+                return format!("forward {} {}", slot, addr);
             }
-            if local_nodes.contains(addr) {
-                return format!("exec {}", addr);
-            }
-            return format!("forward {} {} -", slot, addr);
+            return format!("exec {}", addr);
         }
         match reply {
             Ok(Resp::Error(e)) => {
@@ -993,7 +991,7 @@ impl Run {
         match t.as_slice() {
             ["exec", _] => Some(self.w.cfg.me.clone()),
             ["moved", _, a] => Some(a.to_string()),
-            ["forward", _, a, _] => Some(a.to_string()),
+            ["forward", _, a] => Some(a.to_string()),
             _ => None,
         }
     }
@@ -1178,16 +1176,18 @@ impl Gen {
         if raw {
             stats.count("gen.meta.raw_range_lists");
         }
-        // `tagged`: a migrating / importing range list. RangeMap::from (built for every local task) computes
-        // `last.end - first.start + 1` and panics with "capacity overflow" on a descending list, which only
-        // the compressed form can carry (observation reported in notes/C14.md); descending order is
-        // therefore generated for stable ranges only.
+        // `tagged`: a migrating / importing range list is always generated compacted. Uncompacted lists can
+        // only arrive through the compressed (serde) form, which the broker never produces; for a *tagged*
+        // range they break the real system before CLUSTER NODES is reached (observations in notes/C14.md):
+        // a descending list panics in RangeMap::from ("capacity overflow") when the task is created, and any
+        // list that `RangeList::parse` would change never finds its task in the textual UMCTL handshake
+        // (TASK_NOT_FOUND), so no phase can be driven.
         let mk_rl = |rs: &Ranges, rng: &mut Rng, tagged: bool| -> RangeList {
-            if raw {
+            if raw && !tagged {
                 let mut v = rs.clone();
                 // uncompacted: adjacent ranges not merged, possibly descending; reversed bounds are *not*
                 // used (they would not cover the slots)
-                if !tagged && rng.chance(1, 2) {
+                if rng.chance(1, 2) {
                     v.reverse();
                 }
                 raw_range_list(&v)
